@@ -29,6 +29,7 @@ from .normal import (
     same,
     state_digest,
 )
+from .isolate import ChildFailure, RefServer, forked
 from .simfs import FS
 
 MAX_HANDLES = 4
@@ -90,6 +91,11 @@ def _clone(x, _depth=0):
     return copy.deepcopy(x)
 
 
+def _cif_digest(c):
+    d = c.properties.get("cif_data")
+    return "-" if d is None else digest(norm(d))
+
+
 def outcome(fn, c, A, ctx):
     try:
         value = fn(c, A, ctx)
@@ -112,14 +118,33 @@ def outcomes_equal(a, b):
     return same(a[1], b[1])
 
 
+def compute_reference(req):
+    """Runs in a pristine grandchild (see isolate.RefServer)."""
+    uc, sg, asym, titl, op, A = req
+    fn = O.ALL_QUERIES[op][0] if op in O.ALL_QUERIES else O.RAISERS[op]
+    FS.install()
+    FS.reset()
+    return outcome(fn, Crystal(uc, sg, asym, titl=titl), A, {"dir": "/simfs/ref"})
+
+
 class Sim:
-    def __init__(self, source_spec, args, deep_fork_check=True):
+    def __init__(self, source_spec, args, deep_fork_check=True, ref_mode="inproc"):
         FS.install()
         FS.reset()
         INJECTOR.reset()
+        self.ref_mode = ref_mode
+        self.ref_server = None
+        if ref_mode == "isolated":
+            # forked before this process touches the library for this run
+            self.ref_server = RefServer(compute_reference)
         self.source_spec = source_spec
         self.A = args
-        self.world = [sources.build(source_spec)]
+        try:
+            self.world = [sources.build(source_spec)]
+        except BaseException:
+            self.close()
+            raise
+        self.initial_digest = state_digest(self.world[0])
         self.repeat = [{}]
         self.last_mut = [None]
         self.last_raise = [None]
@@ -132,6 +157,22 @@ class Sim:
         self.n_steps = 0
         self.src_class = sources.source_class(source_spec)
         self._log(-1, 0, "source", "ok:" + state_digest(self.world[0]))
+
+    def close(self):
+        if self.ref_server is not None:
+            self.ref_server.close()
+            self.ref_server = None
+
+    def reference(self, pre, op, fn):
+        """Outcome of the same call on the reference model: a crystal freshly
+        constructed from (copies of) the cell, space group and asymmetric unit."""
+        uc, sg, asym, titl = pre
+        if self.ref_server is not None:
+            try:
+                return self.ref_server.ask((uc, sg, asym, titl, op, self.A))
+            except ChildFailure as e:
+                raise HarnessError(str(e))
+        return outcome(fn, Crystal(uc, sg, asym, titl=titl), self.A, {"dir": "/simfs/ref"})
 
     # ----------------------------------------------------------------- logging
     def _log(self, i, hi, op, out):
@@ -174,7 +215,7 @@ class Sim:
             fb["raised"] = a[1] if a[0] == "raised" else None
         elif op in O.MUTATORS:
             self._mutate(i, hi, op, fb, inject=st.get("inject"))
-        elif op in O.FORKS:
+        elif op in O.FORKS or op == "reload":
             self._fork(i, hi, op)
         elif op == "wfail":
             self._wfail(i, hi, st)
@@ -187,26 +228,27 @@ class Sim:
         out = []
         for j, o in enumerate(self.world):
             if j != hi:
-                out.append((j, state_digest(o), memo_digest(o) if self.deep_fork_check else ""))
+                out.append((j, state_digest(o), (memo_digest(o) + _cif_digest(o)) if self.deep_fork_check else ""))
         return out
 
     def _check_others(self, i, hi, op, others):
         for j, sd, md in others:
             o = self.world[j]
-            if state_digest(o) != sd or (self.deep_fork_check and memo_digest(o) != md):
+            if state_digest(o) != sd or (self.deep_fork_check and memo_digest(o) + _cif_digest(o) != md):
                 raise Violation(
                     "FORK_INTERFERENCE", i, op, hi,
-                    {"other_handle": j, "what": "state" if state_digest(o) != sd else "memo"},
+                    {"other_handle": j, "what": "state" if state_digest(o) != sd else "memo or stored cif_data"},
                 )  # fmt: skip
 
     def _check_query(self, i, hi, op, fn, inject=None):
         h = self.world[hi]
         S = state_digest(h)
-        ref = fresh(h)
         others = self._others(hi)
         mask = memo_mask(h)
         if inject:
             INJECTOR.arm(inject["target"], inject["nth"], inject["exc"])
+        # the reference is built from the state *before* the call
+        pre = (_clone(h.unit_cell), _clone(h.space_group), _clone(h.asymmetric_unit), h.titl)
         try:
             a = outcome(fn, h, self.A, {"dir": "/simfs/h%d" % hi})
         finally:
@@ -223,7 +265,7 @@ class Sim:
                     raise Violation("QUERY_MUTATED_STATE", i, op, hi, {"memo_mask": mask, "injected": True})
                 self._check_others(i, hi, op, others)
                 return a
-        b = outcome(fn, ref, self.A, {"dir": "/simfs/ref"})
+        b = self.reference(pre, op, fn)
         self.stats["checked"] += 1
         self.stats["q:" + op] += 1
         if a[0] == "raised":
@@ -300,6 +342,28 @@ class Sim:
         S = state_digest(h)
         others = self._others(hi)
         try:
+            if op == "reload":
+                # a second, independent load of the same source (same file /
+                # same text): it must be the crystal the run started from,
+                # whatever happened to other crystal objects in between
+                try:
+                    new = sources.build(self.source_spec, fs_dir="/simfs/src%d" % len(self.world))
+                except sources.SourceError as e:
+                    raise Violation("EXCEPTION_MISMATCH", i, op, hi, {
+                        "what": "loading the same source again failed: %s" % e, "after": self._after(hi)})
+                if state_digest(new) != self.initial_digest:
+                    raise Violation("STALE_ANSWER", i, op, hi, {
+                        "what": "loading the same source again gave a different crystal",
+                        "after": self._after(hi)})
+                self.world.append(new)
+                self.repeat.append({})
+                self.last_mut.append(None)
+                self.last_raise.append(None)
+                self.armed.append(False)
+                self.stats["fork:reload"] += 1
+                self._log(i, hi, op, "-> h%d" % (len(self.world) - 1))
+                self._check_others(i, hi, op, others)
+                return
             new = O.FORKS[op](h)
         except O.Unsupported as e:
             self.stats["fork:unsupported:" + op] += 1
@@ -355,13 +419,40 @@ class Sim:
 # --------------------------------------------------------------- whole runs
 def run_schedule(schedule, deep_fork_check=True):
     """Execute an explicit schedule. Returns (sim, violation_or_None)."""
-    sim = Sim(schedule["source"], schedule["args"], deep_fork_check=deep_fork_check)
+    sim = Sim(schedule["source"], schedule["args"], deep_fork_check=deep_fork_check,
+              ref_mode=schedule.get("ref", "inproc"))
     try:
         for st in schedule["steps"]:
             sim.step(st)
     except Violation as v:
         return sim, v
+    finally:
+        sim.close()
     return sim, None
+
+
+def _execute_child(schedule, want_attribution):
+    try:
+        sim, v = run_schedule(schedule)
+    except sources.SourceError as e:
+        return {"status": "source_failed", "error": str(e), "violation": None}
+    out = {"status": "violation" if v is not None else "ok", "violation": None,
+           "steps": sim.n_steps, "checked": sim.stats["checked"], "fingerprint": sim.fingerprint()}
+    if v is not None:
+        out["violation"] = v.to_json()
+    return out
+
+
+def execute(schedule, timeout=300):
+    """Run an explicit schedule in a forked child (pristine module state)."""
+    try:
+        return forked(_execute_child, schedule, False, timeout=timeout)
+    except ChildFailure as e:
+        raise HarnessError(str(e))
+
+
+def violation_from_json(vj):
+    return Violation(vj["class"], vj["step"], vj["op"], vj["handle"], vj["detail"])
 
 
 def audit_steps(n_handles, query_names):
@@ -370,15 +461,24 @@ def audit_steps(n_handles, query_names):
 
 # -------------------------------------------------------------- attribution
 def attribute(schedule, v):
-    """Which stale carrier explains the violation? Re-executes the prefix,
-    then removes carriers from a deep copy of the handle until the answer is
-    the fresh one. Returns a sorted list of carrier names ([] = none found)."""
+    """Which stale carrier explains the violation? In a forked child:
+    re-executes the prefix, then removes carriers from a deep copy of the
+    handle until the answer is the fresh one. Returns a sorted list of
+    carrier names ([] = none found)."""
+    try:
+        return forked(_attribute_child, schedule, v.to_json(), timeout=600)
+    except ChildFailure as e:
+        raise HarnessError(str(e))
+
+
+def _attribute_child(schedule, vj):
+    v = violation_from_json(vj)
     if v.cls not in ("STALE_ANSWER", "EXCEPTION_MISMATCH", "REPEAT_DIFFERS"):
         return []
     if v.op not in O.ALL_QUERIES and v.op not in O.RAISERS:
         return []
     fn = O.ALL_QUERIES[v.op][0] if v.op in O.ALL_QUERIES else O.RAISERS[v.op]
-    prefix = dict(schedule, steps=schedule["steps"][: v.step])
+    prefix = dict(schedule, steps=schedule["steps"][: v.step], ref="inproc")
     sim, early = run_schedule(prefix)
     if early is not None:
         return []
